@@ -72,7 +72,7 @@ def run(tier, seed):
                 q["srv"]["reply"]["sel"] = sel
                 q["srv"]["mode"] = "nego"
                 plans.append(q); k += 1
-        trace, blobs, decoded, dec = conn.run_plans(wd, plans, "c17")
+        trace, blobs, decoded, dec = conn.run_plans(wd, plans, "c17", v=v, key="secrets:abort")
         accepted, rejects = core.tv_all("Trace_Rdp", trace, decoded, wd, shards=8, max_rejects=6, overrides=True, extra_env={"BLOBS": blobs}, cfg="Trace_Rdp_secrets.cfg")
         byid = {p["id"]: p for p in plans}
         for r in rejects:
